@@ -313,6 +313,15 @@ def havoc_source_forward(interp, source):
         interp.call_real_function(ParseSource.consume_current_line, [source], {})
 
 
+# Frames "the source is moved forwards" (loop heads; call sites of verified functions whose postcondition
+# includes RI and `not moved backwards`, and which need a current line): the source becomes arbitrary by the
+# environment step above.  That this covers every state such a postcondition allows follows from the lemma
+# `state is a function of the offset` and the contract of ParseSource.consume (for every n the state at off + n).
+from pyvc.api import HavocBy
+
+FORWARD = HavocBy(havoc_source_forward)
+
+
 def _on_last_line(source):
     return has_line(source) and NL not in source.source_string
 
@@ -405,10 +414,6 @@ M.contract('contracts.C07_document:lemma_state_is_a_function_of_the_offset',
 
 # ---- comment / empty-line parser
 
-from pyvc.api import HavocBy
-
-FORWARD = HavocBy(havoc_source_forward)       # loop frames: the source is moved forwards by the body
-
 
 class LinePredicateI(Interface):
     """a predicate on the text of a line (is_empty_line / is_comment_line at the two call sites)"""
@@ -431,12 +436,15 @@ M.contract(P_CEP + '._consume_and_return_current_line',
            params=dict(source=PARSE_SOURCE, line_predicate_for_line_to_consume=Iface(LinePredicateI)),
            ghosts=dict(orig=Str),
            requires=lambda source, orig: RI(source, orig) and has_line(source),
-           old=lambda source, orig: (ls_of(source, orig), source._current_line_number),
+           old=lambda source, orig: (ls_of(source, orig), source._current_line_number, source._current_line_text,
+                                     off_of(source, orig)),
            modifies=dict(source=PS_FRAME),
            returns=LINE_SEQUENCE,
            ensures={
                'RI': lambda source, orig: RI(source, orig),
+               'moved-forward': lambda source, orig, old: off_of(source, orig) >= old[3],
                'at-a-line-start-or-no-current-line': lambda source: (not has_line(source)) or source._column_index == 0,
+               'first-line-is-the-current-line': lambda result, old: len(result.lines) >= 1 and result.lines[0] == old[2],
                'first-line-number-is-that-of-the-current-line': lambda result, old:
                result.first_line_number == old[1],
                'lines-are-the-complete-lines-consumed': lambda result, source, orig, old:
@@ -454,6 +462,10 @@ def _consumed_lines_inv(source, orig, lines, old, pred):
     if not RI(source, orig):
         return False
     if len(lines) < 1:
+        return False
+    if lines[0] != old[2]:
+        return False
+    if off_of(source, orig) < old[3]:
         return False
     if has_line(source):
         if source._column_index != 0:
@@ -508,3 +520,56 @@ M.contract(P_SYN + ':is_comment_line', params=dict(line=Str), returns=Bool,
            ensures={'first-non-blank-is-#': lambda line, result: iff(result, is_comment(line))}, raises_only=())
 M.contract(P_SYN + ':is_empty_line', params=dict(line=Str), returns=Bool,
            ensures={'only-blanks': lambda line, result: iff(result, is_blank(line))}, raises_only=())
+
+
+def is_header_of(line, name):
+    """line is a well-formed phase header for the phase `name`:  blanks [ name ] blanks, where the name and
+    what follows it are what the module's own patterns for them accept"""
+    body = line.lstrip(BLANKS)
+    return body.startswith('[') \
+        and body[1:1 + len(name)] == name \
+        and syntax._SECTION_NAME_RE.fullmatch(name) is not None \
+        and syntax._SECTION_NAME_AFTER_RE.match(body[1 + len(name):]) is not None
+
+
+M.contract(P_SYN + ':extract_section_name_from_section_line', params=dict(line=Str), returns=Str,
+           requires=lambda line: is_header(line),
+           raises={ValueError: {}},
+           ensures={'the-name-of-a-well-formed-header': lambda line, result: is_header_of(line, result)},
+           raises_only=())
+M.assume('extract_section_name_from_section_line: only "a returned name is the name of a well-formed header; every '
+         'other outcome is ValueError" is proved.  That every well-formed header is accepted depends on which match '
+         'Python\'s backtracking search reports for \\w[\\w -.]*\\w|\\w (m.end()), which the assumed contract of '
+         're.Pattern.match leaves open; it is covered by the bounded stand-in.')
+
+
+from exactly_lib.section_document import parsed_section_element as pse
+from exactly_lib.section_document.model import ElementType, InstructionInfo
+
+NON_INSTRUCTION = Inst(pse.ParsedNonInstructionElement, _source=LINE_SEQUENCE, _element_type=EnumOf(ElementType))
+
+M.contract(P_CEP + '.parse',
+           params=dict(self=Inst(sep.StandardSyntaxCommentAndEmptyLineParser), fs_location_info=Any_,
+                       source=PARSE_SOURCE),
+           ghosts=dict(orig=Str),
+           requires=lambda source, orig: RI(source, orig) and has_line(source),
+           old=lambda source, orig: (snap(source), ls_of(source, orig), off_of(source, orig)),
+           modifies=dict(source=PS_FRAME),
+           returns=Opt(NON_INSTRUCTION),
+           ensures={
+               'RI': lambda source, orig, old: RI(source, orig) and off_of(source, orig) >= old[2],
+               'none-iff-neither-blank-nor-comment': lambda result, old:
+               iff(result is None, not is_blank(old[0][3]) and not is_comment(old[0][3])),
+               'none-consumes-nothing': lambda result, source, old: result is not None or unchanged(source, old[0]),
+               'blank-before-comment': lambda result, old:
+               result is None or result.element_type is (ElementType.EMPTY if is_blank(old[0][3])
+                                                         else ElementType.COMMENT),
+               'source-is-the-complete-lines-consumed': lambda result, source, orig, old:
+               result is None or (result.source.first_line_number == old[0][2]
+                                  and NL.join(result.source.lines) == whole_lines_from(orig, old[1], source)),
+               'every-line-is-of-the-kind-of-the-element': lambda result:
+               result is None or forall_range(0, len(result.source.lines), lambda j:
+                                              is_blank(result.source.lines[j])
+                                              if result.element_type is ElementType.EMPTY
+                                              else is_comment(result.source.lines[j])),
+           }, raises_only=())
